@@ -169,6 +169,7 @@ OPS = [
     ("parse d1 as Drawing (lxml)", "parse", ("lxml", "d1", "Drawing", True)),
     ("parse d2 as Drawing (native)", "parse", ("native", "d2", "Drawing", True)),
     ("parse p1 as Pick (lxml)", "parse", ("lxml", "p1", "Pick", True)),
+    ("parse p1 as Pick, lenient (lxml)", "parse", ("lxml", "p1", "Pick", False)),
     ("parse rebind as Drawing (native)", "parse", ("native", "rebind", "Drawing", True)),
     ("parse rebind as Drawing (lxml)", "parse", ("lxml", "rebind", "Drawing", True)),
     ("parse malformed as A (native)", "parse", ("native", "bad-syntax", "A", True)),
